@@ -38,7 +38,8 @@ def _cycle_check_starts(vf):
     if ast.unparse(first.test) == "transition.is_fallthrough" and [ast.unparse(x) for x in first.body] == ["symbols = transition.on_values"]:
         kinds.add("fallthrough")
         nxt = first.orelse[0] if len(first.orelse) == 1 and isinstance(first.orelse[0], ast.If) else None
-        if nxt is not None and ast.unparse(nxt.test) == "DFTransition.End in transition.on_values" and [ast.unparse(x) for x in nxt.body] == ["symbols = [DFTransition.End]"] \
+        if nxt is not None and ast.unparse(nxt.test) in ("DFTransition.End in transition.on_values", "DFTransition.End in transition.on_values and (not transition.error_handling)") \
+                and [ast.unparse(x) for x in nxt.body] == ["symbols = [DFTransition.End]"] \
                 and len(nxt.orelse) == 1 and isinstance(nxt.orelse[0], ast.Continue):
             kinds.add("end")
     return kinds
@@ -187,8 +188,16 @@ def run(ctx, rep, tier):
     rep.rule("C04.d3", "the cycle check treats a transition that lists End as a non-consuming step for end-of-input (end() re-dispatches after a matched `end` pattern)")
     sip = model.functions.get("DfaCompileCtx._verify_fallthrough_loop.stays_in_place")
     ok = "end" in start_kinds and sip is not None and \
-        ast.unparse(sip.body[-1]) == "return t.is_fallthrough or (symbols == [DFTransition.End] and DFTransition.End in t.on_values)" and "real_target = x[symbols]" in asrc
+        ast.unparse(sip.body[-1]) in ("return t.is_fallthrough or (symbols == [DFTransition.End] and DFTransition.End in t.on_values)",
+                                      "return t.is_fallthrough or (symbols == [DFTransition.End] and DFTransition.End in t.on_values and (not t.error_handling))") and "real_target = x[symbols]" in asrc
     redispatch = any(isinstance(n, ast.Constant) and n.value == "goto repeatswitch;" for n in ast.walk(model.func("CodegenCtx._generate_end_switch_body")))
+    esb = ast.unparse(model.func("CodegenCtx._generate_end_switch_body"))
+    cg_nonerr = "matched_end_pattern = DFTransition.End in unconditional_end_transition.on_values and (not unconditional_end_transition.error_handling)" in esb
+    cc_nonerr = sip is not None and "not t.error_handling" in ast.unparse(sip.body[-1])
+    if redispatch and ok:
+        rep.check(cg_nonerr == cc_nonerr, "C04.d3", "DfaCompileCtx._verify_fallthrough_loop", "the cycle check and end() agree on which End-listing transitions make end() go on (error paths: neither)",
+                  "end() and the cycle check disagree on whether an error path that lists End (a wait sending the regex's end-of-input exclusion back to its start) makes end() go on: "
+                  "either `wait /./;` is refused under EOF support, or end() re-dispatches from the wait's start for ever")
     rep.check(ok or not redispatch, "C04.d3", "DfaCompileCtx._verify_fallthrough_loop", "walks also start at / pass through transitions listing End, for the symbol End only",
               "end() goes on dispatching after a matched `end` pattern, but the cycle check does not treat that step as non-consuming: `loop { case { \"a\" -> {} end -> { yield Y; } } }` "
               "is accepted and end() returns the yield code for ever")
